@@ -145,6 +145,60 @@ theorem callee_tables_ok :
     TableOK [transactionCache_Get, transactionCache_Set, transactionCache_Remove, transactionCache_AddHit, transactionCache_AddMiss] := by
   decide +kernel
 
+
+/-! ## every exported method of the trie: inside the discipline or not, and why
+
+`tableOK (m :: mptScope)`: does the claimed scope together with `m` satisfy the discipline? (For a method already
+in the scope this is `mpt_table_ok` again.) -/
+
+theorem mpt_methods_status :
+    (mpt.filter (·.exported)).map (fun m => (m.name, tableOK (m :: mptScope))) =
+      [("Cache", true), ("GetMissingNodeKeys", true), ("SetNodeDB", true), ("GetNodeDB", true), ("SetVersion", false),
+       ("GetVersion", true), ("GetRoot", true), ("GetNodeValue", true), ("GetNodeValueRaw", true), ("Insert", true),
+       ("Delete", true), ("GetChanges", true), ("GetDeletes", true), ("GetChangeCount", true), ("SaveChanges", true),
+       ("Iterate", true), ("IterateFrom", false), ("PrettyPrint", true), ("GetAllMissingNodes", true),
+       ("HasMissingNodes", true), ("Validate", true), ("MergeMPTChanges", false), ("MergeChanges", true),
+       ("MergeDB", true)] := by
+  decide +kernel
+
+/-- `SetVersion`: a concrete conflicting pair — its atomic store of `Version` (field 5, no lock) against the plain
+read of `Version` that `Insert` performs (in `insertNode`) under the write lock: not protected against each other
+(confirmed with the race detector: suite op `setver`) -/
+theorem setVersion_conflict :
+    ∃ a, a ∈ footprint [mpt_SetVersion] ∧ ∃ b, b ∈ footprint [mpt_Insert] ∧
+      a.loc = b.loc ∧ a.write = true ∧ ¬ Protected a b :=
+  ⟨⟨5, true, 3005, none⟩, by decide +kernel, ⟨5, false, 0, some .W⟩, by decide +kernel, rfl, rfl,
+    by simp [Protected]⟩
+
+/-- `IterateFrom`: no conflicting pair at field level — everything it touches without the lock is either a field
+nobody writes or an internally synchronised object / the sub-locked missing-key list — but it takes the trie's lock
+not at all (`sections = 0`): it walks the store while writers change it, so it is race-free but not atomic -/
+theorem iterateFrom_status :
+    mpt_IterateFrom.lock = .none ∧ mpt_IterateFrom.sections = 0 ∧
+    mpt_IterateFrom.accesses.all (fun a => (toFAcc a).sub != 0 ||
+      (!(toFAcc a).write && frozenL (footprint (mpt_IterateFrom :: mptScope)) (toFAcc a).loc)) = true ∧
+    wholeBody (footprint (mpt_IterateFrom :: mptScope)) mpt_IterateFrom = false := by
+  decide +kernel
+
+/-- `MergeMPTChanges`: three critical sections (it reads its own root and store, and the child's root, before it
+takes the write lock: check-then-act, repeated under the lock by `mergeChanges`), and it assigns
+`db.version` — a field of the LevelNodeDB behind `db` — holding the trie's write lock but not the store's mutex -/
+theorem mergeMPTChanges_status :
+    mpt_MergeMPTChanges.sections = 3 ∧
+    (mpt_MergeMPTChanges.accesses.filter (fun a => a.kind == .innerWrite)).map
+      (fun a => (a.field, a.callee, a.mode, a.subId)) = [("db", "version", .write, 0)] ∧
+    levelNodeDB_GetDBVersion.accesses.map (fun a => (a.field, a.fid, a.kind, a.mode)) = [("version", 6, .read, .read)] := by
+  decide +kernel
+
+/-- … the concrete conflicting pair, in the LevelNodeDB's own lock space: the write of `version` (field 6) without
+the store's mutex against `LevelNodeDB.GetDBVersion`'s read under the store's read lock. Within ONE trie all other
+accesses to the store go through the trie's lock, so the pair needs a caller of `GetDBVersion` on the shared store
+(confirmed with the race detector: corpus/C16/extra/candidate_mergempt_dbversion_race.ops; concurrent merges of
+several children into one parent are race-free in the runs) -/
+theorem mergeMPTChanges_version_conflict :
+    ¬ Protected { loc := 6, write := true, sub := 0, held := none } { loc := 6, write := false, sub := 0, held := some .R } := by
+  simp [Protected]
+
 /-! ## the original code (commit 70d872e) -/
 
 /-- strip the sub-lock from an access (the pre-fix code had no `missingMutex`) -/
